@@ -5,7 +5,7 @@
 (* grammar with the value each sentence denotes.  Strings are sequences of  *)
 (* code points.                                                             *)
 (***************************************************************************)
-EXTENDS SeriesMachine, Text
+EXTENDS SeriesMachine, LeapFile
 
 (* YYYY-MM-DDTHH:MM:SS[.NNNNNNNNN] of a field tuple *)
 DateTimeText(f, withZeroFrac) ==
